@@ -494,3 +494,143 @@ func litIsTotal(encl *ast.FuncDecl, lit *ast.FuncLit) bool {
 	}
 	return total(ret.Results[0])
 }
+
+// ---------------------------------------------------------------- a read-only slice of slices as a parameter
+
+// nestedReadOnly: the parameter p of type [][]T / []Slice is only measured (len(p)) and ranged
+// over, and the range variables bound to its inner slices are only measured, read by index and
+// ranged over in turn: then the parameter can be handed over BY VALUE (list (list T)): nothing
+// the function does depends on who else holds the arrays.
+func nestedReadOnly(fd *ast.FuncDecl, p *ast.Object) bool {
+	inner := map[*ast.Object]bool{}
+	ast.Inspect(fd.Body, func(n ast.Node) bool {
+		if r, ok := n.(*ast.RangeStmt); ok && r.Tok == token.DEFINE {
+			if x, ok := r.X.(*ast.Ident); ok && x.Obj == p {
+				if v, ok := r.Value.(*ast.Ident); ok && v.Obj != nil {
+					inner[v.Obj] = true
+				}
+			}
+		}
+		return true
+	})
+	ok := true
+	var stack []ast.Node
+	ast.Inspect(fd.Body, func(n ast.Node) bool {
+		if n == nil {
+			stack = stack[:len(stack)-1]
+			return true
+		}
+		if id, isId := n.(*ast.Ident); isId && id.Obj != nil && (id.Obj == p || inner[id.Obj]) {
+			var parent ast.Node
+			if len(stack) > 0 {
+				parent = stack[len(stack)-1]
+			}
+			switch pv := parent.(type) {
+			case *ast.CallExpr:
+				if !isBuiltin(pv, "len", 1) {
+					ok = false
+				}
+			case *ast.RangeStmt:
+				if pv.X != ast.Expr(id) && !(pv.Value == ast.Expr(id) && pv.Tok == token.DEFINE) {
+					ok = false
+				}
+			case *ast.IndexExpr:
+				// v[i] read: the inner slice only, and not as the target of a store or of &
+				if pv.X != ast.Expr(id) || id.Obj == p {
+					ok = false
+				} else if len(stack) > 1 {
+					switch gp := stack[len(stack)-2].(type) {
+					case *ast.AssignStmt:
+						for _, l := range gp.Lhs {
+							if l == ast.Expr(pv) {
+								ok = false
+							}
+						}
+					case *ast.IncDecStmt:
+						ok = false
+					case *ast.UnaryExpr:
+						if gp.Op == token.AND {
+							ok = false
+						}
+					}
+				}
+			default:
+				ok = false
+			}
+		}
+		stack = append(stack, n)
+		return true
+	})
+	return ok
+}
+
+// ---------------------------------------------------------------- a pointer to an element of a slice parameter as the result
+
+// elemPtrResult: result slot `slot` of type *T, and every return gives it `&s[i]` for ONE slice
+// parameter s, or nil: the result is the INDEX (option Z): which element of the argument the
+// pointer designates, None for nil.  (The address itself is not represented; &s[i] checks the
+// index like a read.)  Returns the parameter.
+func elemPtrResult(fd *ast.FuncDecl, slot, nres int) *ast.Object {
+	var param *ast.Object
+	ok, any := true, false
+	ast.Inspect(fd.Body, func(n ast.Node) bool {
+		switch v := n.(type) {
+		case *ast.FuncLit:
+			return false
+		case *ast.ReturnStmt:
+			if len(v.Results) != nres {
+				ok = false
+				return true
+			}
+			r := v.Results[slot]
+			if id, isId := r.(*ast.Ident); isId && id.Name == "nil" && id.Obj == nil {
+				return true
+			}
+			u, isU := r.(*ast.UnaryExpr)
+			if !isU || u.Op != token.AND {
+				ok = false
+				return true
+			}
+			ix, isIx := u.X.(*ast.IndexExpr)
+			if !isIx {
+				ok = false
+				return true
+			}
+			id, isId := ix.X.(*ast.Ident)
+			if !isId || id.Obj == nil {
+				ok = false
+				return true
+			}
+			if _, isField := id.Obj.Decl.(*ast.Field); !isField || (param != nil && param != id.Obj) {
+				ok = false
+				return true
+			}
+			param, any = id.Obj, true
+		}
+		return true
+	})
+	if !ok || !any {
+		return nil
+	}
+	return param
+}
+
+// elemPtrValue: the value of such a result at a return
+func (c *fnCtx) elemPtrValue(r ast.Expr, pre *[]fnBind) string {
+	if id, ok := r.(*ast.Ident); ok && id.Name == "nil" && id.Obj == nil {
+		return "(@None Z)"
+	}
+	ix := r.(*ast.UnaryExpr).X.(*ast.IndexExpr)
+	x := c.plainVar(ix.X)
+	if x == nil || x.typ.k != "slice" || x.noElems {
+		c.lostAt(r, "address of an element of %s (must be a list-represented slice parameter)", src(ix.X))
+	}
+	i, it := c.expr(ix.Index, pre)
+	if !it.isNum() {
+		c.lostAt(r, "index of type %s", it.k)
+	}
+	tm := c.tmp()
+	*pre = append(*pre, fnBind{pat: tm, e: i, isLet: true})
+	bindRaw(pre, "_", "go_get "+x.name+" "+tm) // &s[i] checks the index
+	return "(Some " + tm + ")"
+}
